@@ -144,6 +144,7 @@ fn huff_profile_cases(r: &mut Rng, t: Tier, fam: &str, ops: &[&str], extra: &[&s
         c.l(format!("cfg {} {} {} * {}", cfg.0, cfg.1 as u8, ty.1, ty.0));
         c.l(format!("tie {}", r.next() | 1));
         c.l(format!("mk 0 {} {}", fam, join(&v)));
+        c.l("lenschk 0");
         for e in extra {
             c.l(e.to_string());
         }
